@@ -16,7 +16,7 @@ use uom::si::time::second;
 pub fn def() -> PropDef {
     PropDef {
         id: "C17",
-        rule: "inputs: waveforms of 1..=700 samples = sums of 0..=8 response-shaped pulses (amplitude 1..1e4, start anywhere incl. the last 24 samples) plus noise of magnitude {0, 1e-9, 0.3, 3, 30} x uniform, integer-rounded or not; contiguous wire blocks of every length 1..=256 at generated ring positions (incl. the seam) with differing per-wire lengths and cross-talk; scale factors 2^k, k in -8..=8; oracle: (1) outputs finite, >= 0, one sample per input sample and one channel per input channel; (2) pad deconvolution == naive reference (one sample at a time, no skipping, same offset-outer / look-ahead-inner grid 3..=5 x 7..=12, first strict minimum of the squared residual) bit for bit; (3) deconv(2^k x) == 2^k deconv(x) bit for bit for pads and wire blocks, and on whole events through the public API (every avalanche keeps t, phi, z by bits and both amplitudes scale exactly); (4) an isolated response-shaped wire pulse of amplitude a at sample k <= len - 18 on one wire at each of the 256 ring positions is recovered as a at k (relative 1e-6) and <= 1e-6 a elsewhere; non-trivial = waveforms on which the reference takes both the skip branch and the subtract branch; distinct by waveform hash",
+        rule: "inputs: waveforms of 1..=700 samples = sums of 0..=8 response-shaped pulses (amplitude 1..1e4, start anywhere incl. the last 24 samples) plus noise of magnitude {0, 1e-9, 0.3, 3, 30} x uniform, integer-rounded or not; contiguous wire blocks of every length 1..=256 at generated ring positions (incl. the seam) with differing per-wire lengths and cross-talk; scale factors 2^k, k in -8..=8; oracle: (1) outputs finite, >= 0, one sample per input sample and one channel per input channel; (2) pad deconvolution == naive reference (one sample at a time, no skipping, same offset-outer / look-ahead-inner grid 3..=5 x 7..=12, first strict minimum of the squared residual) bit for bit; (3) deconv(2^k x) == 2^k deconv(x) bit for bit for pads and wire blocks, and on whole events through the public API (every avalanche keeps t, phi, z by bits and both amplitudes scale exactly); (4) an isolated response-shaped wire pulse of amplitude a at sample k <= len - 18 on one wire at each of the 256 ring positions is recovered as a at k (relative 1e-6) and <= 1e-6 a elsewhere; whole events: digitised hit-pattern events scaled by 2, 4, 8 through the public API, and their calibrated signals scaled by 2^-60..2^60 through the event_from_signals hook - same avalanche count, same t / phi / z by bits, amplitudes times the factor exactly; non-trivial = waveforms on which the reference takes both the skip branch and the subtract branch; distinct by waveform hash",
         assumptions: &[
             "pad_deconvolution / wire_deconvolution are reached through alpha_g_physics::verif_hooks; the response functions are the harness's own re-binning of the shipped JSON files",
             "bit-exactness of the reference relies on performing the same floating-point operations in the same order, which is what 'equals its plain definition' means operationally",
@@ -318,6 +318,40 @@ pub struct ScaleEvent {
     pub factor_exp: u8,
 }
 
+
+/// The same on calibrated signals through the event_from_signals hook, where any
+/// power of two is possible: 2^-60 ..= 2^60.
+#[derive(Clone, Debug, Serialize, Deserialize)]
+pub struct ScaleSignals {
+    pub hits: HitEvent,
+    pub exp: i8,
+}
+
+fn scale_signals(c: &ScaleSignals, ev: &mut Ev) -> Outcome {
+    ev.eval();
+    let f = 2f64.powi(c.exp as i32);
+    let (w, p) = (c.hits.wire_signals(), c.hits.pad_signals());
+    let mut wires: Vec<(usize, Vec<f64>)> = w.iter().map(|(k, s)| (*k, s.clone())).collect();
+    wires.sort_by_key(|x| x.0);
+    let mut pads: Vec<(usize, usize, Vec<f64>)> = p.iter().map(|(k, s)| (k.0, k.1, s.clone())).collect();
+    pads.sort_by_key(|x| (x.0, x.1));
+    let scaled_w = wires.iter().map(|(k, s)| (*k, s.iter().map(|v| v * f).collect())).collect();
+    let scaled_p = pads.iter().map(|(a, b, s)| (*a, *b, s.iter().map(|v| v * f).collect())).collect();
+    let a0 = hooks::event_from_signals(wires, pads, 0).avalanches();
+    let a1 = hooks::event_from_signals(scaled_w, scaled_p, 0).avalanches();
+    ensure!(a0.len() == a1.len(), "event-not-scale-covariant", "scaling every calibrated sample by 2^{}: {} avalanches become {}", c.exp, a0.len(), a1.len());
+    for (x, y) in a0.iter().zip(&a1) {
+        let same = x.t.get::<second>().to_bits() == y.t.get::<second>().to_bits() && x.phi.get::<radian>().to_bits() == y.phi.get::<radian>().to_bits() && x.z.get::<meter>().to_bits() == y.z.get::<meter>().to_bits();
+        ensure!(same, "event-not-scale-covariant", "scaling by 2^{} moved an avalanche: {x:?} -> {y:?}", c.exp);
+        ensure!((x.wire_amplitude * f).to_bits() == y.wire_amplitude.to_bits() && (x.pad_amplitude * f).to_bits() == y.pad_amplitude.to_bits(), "event-not-scale-covariant", "scaling by 2^{}: amplitudes ({}, {}) -> ({}, {})", c.exp, x.wire_amplitude, x.pad_amplitude, y.wire_amplitude, y.pad_amplitude);
+    }
+    if a0.len() >= 2 {
+        ev.nontrivial(fingerprint(&format!("{c:?}")));
+        ev.label(if c.exp.abs() > 8 { "signals:|exp|>8" } else { "signals:|exp|<=8" });
+    }
+    Ok(())
+}
+
 fn scale_event(c: &ScaleEvent, ev: &mut Ev) -> Outcome {
     ev.eval();
     let f = 1i32 << (1 + c.factor_exp % 3);
@@ -372,6 +406,10 @@ fn run(r: &Run) {
         hits.noise = 0;
         ScaleEvent { hits, factor_exp }
     }), scale_event);
+    r.prop("whole_event_scale_signals", t.pick(1_500, 100_000), || (hit_event(10), prop_oneof![1 => -8i8..=8, 3 => -60i8..=60]).prop_map(|(mut hits, exp)| {
+        hits.induction = true;
+        ScaleSignals { hits, exp }
+    }), scale_signals);
 }
 
 fn replay(_r: &Run, check: &str, case: &Value) -> Option<Outcome> {
@@ -379,6 +417,7 @@ fn replay(_r: &Run, check: &str, case: &Value) -> Option<Outcome> {
         "pad_waveforms" => replay_case(case, pad_case),
         "wire_blocks" => replay_case(case, block_case),
         "whole_event_scale" => replay_case(case, scale_event),
+        "whole_event_scale_signals" => replay_case(case, scale_signals),
         _ => return None,
     })
 }
